@@ -9,6 +9,7 @@ strings* by `lookup_ext` (a proof, the quantifier's domain being the table); the
 strings.
 -/
 namespace SgVerif.C27
+open SgVerif.Xbt
 
 /-- `THROW_IMPOSSIBLE` is never reached while building the four tables (enum: 5 kinds) -/
 theorem tables_built : ∀ k : Kind, (table k).isSome := by
